@@ -74,6 +74,11 @@ CLAIMED = {
    text="24 kinds of failing construct are placed at every depth 0..6 of entered blocks, with generated newline layouts and multi-line tags, parsed with and without a path and with starting lines 0/1/37; the error's LineNumber, Path, message and Cause chain are compared with what the construction determines, and Render must not return output with an error.",
    note="Trusted: the harness's own bookkeeping of where the failing token starts; for unclosed blocks the expected location is the first token the C06 reference acceptor rejects (or the opener at end of input). Message text is only checked for naming the offending filter/tag or carrying the sentinel.",
    ref="DESIGN.md 7.C07"),
+ "C19": dict(
+   technique="property-based testing: metamorphic relation between a custom-delimiter engine on the re-spelled template and the default engine on the default spelling; exhaustive small delimiter quadruples plus rapid-generated ones (native go fuzzing of the quadruple in the thorough tier)",
+   text="All valid quadruples of length-1 strings over < > [ ] \\ ^ with every subset of positions left empty (and all length <= 2 quadruples in the thorough tier) plus random quadruples up to length 4 are applied to generated templates with hyphens, raw/comment blocks and a failing last line; output bytes or the error's line number must equal the default spelling on a default engine, and default delimiter strings must be plain text for other delimiters.",
+   note="Templates whose contents contain a delimiter character are outside the statement ('a template written with them') and are excluded and counted. Trusted: hx.Spell produces the same token sequence under both spellings.",
+   ref="DESIGN.md 7.C19"),
 }
 
 REASON_PENDING = "check not built yet in this snapshot of /verif (planned: see DESIGN.md section 7); nothing is claimed for it"
